@@ -13,14 +13,16 @@ def btWidth (s : String) : Option Nat :=
   match s with
   | "u8" => some 8 | "u16" => some 16 | "u32" => some 32 | "u64" => some 64 | _ => none
 
-/-- known-finding classes of C08 (decidable on the inputs) -/
-def intClassDiv (w n a b : Nat) : String :=
-  if n == w && w ≥ 32 && a == 2 ^ (n - 1) && b == 2 ^ n - 1 then "integer.div.native_maxneg_by_minus1" else ""
+/-- known-finding class of C08 (decidable on the inputs): D8, `>>=` by a count ≥ nbits calls `setzero()`, so a negative value
+    becomes 0 instead of −1; `k` is the count as a RIGHT shift (`<<=` with a negative count forwards to `>>=`) -/
+def intClassShr (n : Nat) (a : Nat) (k : Int) : String :=
+  if k ≥ (n : Int) && a ≥ 2 ^ (n - 1) then "integer.shr.count_ge_nbits_negative" else ""
 
-def intClassU64 (w n : Nat) : String :=
-  if w == 64 && n > 64 then "integer.u64.multiblock_carry" else ""
-
-private def orCls (a b : String) : String := if a.isEmpty then b else a
+/- The other classes are gone: `integer.div.native_maxneg_by_minus1` (exact-fit native division trapped on most negative / −1)
+   and `integer.u64.multiblock_carry` (`+=` dropped the carry between `uint64_t` blocks) are repaired; a recurrence has no class
+   and is reported as a violation.  (Multi-block `uint64_t` `*=` is still not usable — 64×64-bit partial products in a 64-bit
+   accumulator, `segment >>= 64` — and is not sent by the streams: known finding `integer.u64.multiblock_mul`, documented in
+   known_findings.json, theorem `C08_mul` keeps its guard.) -/
 
 def integerHandler : Handler := fun lhs rhs => do
   let (ns, bts, op, args) ← match lhs with
@@ -31,14 +33,13 @@ def integerHandler : Handler := fun lhs rhs => do
   let k := nrBlocks w n
   let lim (v : Nat) : List Nat := ofNat w k v
   let outS ← match rhs with | [r] => pure r | _ => throw "rhs arity"
-  let u64cls := intClassU64 w n
   -- the implementation's raw storage, or none for "trap"
   let implV : Option Nat := if outS == "trap" then none else parseHex outS
   if outS != "trap" && implV.isNone then throw "out"
   let hexL (l : List Nat) : String := toHex (toNat w l)
   let judge (model : String) (expect : Nat) (tag : String) (cls : String) : LineResult :=
     let ok := match implV with | some r => r == expect | none => false
-    { model := model, specOk := ok, reason := if ok then "" else s!"expected {toHex expect}", cls := orCls cls u64cls, tag := tag }
+    { model := model, specOk := ok, reason := if ok then "" else s!"expected {toHex expect}", cls := cls, tag := tag }
   match op, args with
   | "cmp", [as, bs] =>
     let some a := parseHex as | throw "a"
@@ -51,12 +52,12 @@ def integerHandler : Handler := fun lhs rhs => do
     if b == 0 then throw "division by zero is outside the property"
     let isRem := op == "rem"
     let m := Integer.divrem w n (lim a) (lim b) isRem
-    let ms := match m with | some l => hexL l | none => "trap"
+    let ms := hexL m
     let e := if isRem then IntegerSpec.rem n a b else IntegerSpec.div n a b
-    let path := if n == w then "native" else "idiv"
+    let path := if n == w then (if b == 2 ^ n - 1 then "native-minus1" else "native") else "idiv"
     let q := Int.tdiv (IntegerSpec.val n a) (IntegerSpec.val n b)
     let kind := if q == 0 then "q0" else if IntegerSpec.fits n q then "q" else "qwrap"
-    return judge ms e s!"{op}/{path}/{kind}" (intClassDiv w n a b)
+    return judge ms e s!"{op}/{path}/{kind}" ""
   | _, [as, bs] =>
     if op == "shl" || op == "shr" then
       let some a := parseHex as | throw "a"
@@ -64,7 +65,7 @@ def integerHandler : Handler := fun lhs rhs => do
       let m := if op == "shl" then Integer.shl w n (lim a) c else Integer.shr w n (lim a) c
       let e := if op == "shl" then IntegerSpec.shl n a c else IntegerSpec.shr n a c
       let right : Int := if op == "shr" then c else -c
-      let cls := ""
+      let cls := intClassShr n a right
       let mag := right.natAbs
       let kind := if c == 0 then "zero" else if mag > n then "gt-n" else if mag == n then "eq-n"
         else if mag % w == 0 then "blocks" else if mag > w then "blocks+bits" else "bits"
@@ -74,7 +75,7 @@ def integerHandler : Handler := fun lhs rhs => do
       let some a := parseHex bs | throw "a"
       let r := Integer.resize w m n (lim a)
       let ok := match implV with | some v => IntegerSpec.resizeOk n m a v | none => false
-      return { model := hexL r, specOk := ok, reason := if ok then "" else s!"value {IntegerSpec.val n a} not preserved", cls := u64cls,
+      return { model := hexL r, specOk := ok, reason := if ok then "" else s!"value {IntegerSpec.val n a} not preserved", cls := "",
                tag := if m > n then "cvt/widen" else if m < n then (if IntegerSpec.fits m (IntegerSpec.val n a) then "cvt/narrow-fits" else "cvt/narrow-wraps") else "cvt/same" }
     else
       let some a := parseHex as | throw "a"
@@ -101,24 +102,24 @@ def integerHandler : Handler := fun lhs rhs => do
       let some v := parseInt as | throw "v"
       let m := Integer.convertSigned w n v
       let ok := match implV with | some r => IntegerSpec.fromIntOk n v r | none => false
-      return { model := hexL m, specOk := ok, reason := if ok then "" else "value not preserved", cls := u64cls,
+      return { model := hexL m, specOk := ok, reason := if ok then "" else "value not preserved", cls := "",
                tag := if IntegerSpec.fits n v then "fromi64/fits" else "fromi64/wraps" }
     | "fromu64" =>
       let some v := parseHex as | throw "v"
       let m := Integer.convertUnsigned w n v
       let ok := match implV with | some r => IntegerSpec.fromIntOk n (v : Int) r | none => false
-      return { model := hexL m, specOk := ok, reason := if ok then "" else "value not preserved", cls := u64cls,
+      return { model := hexL m, specOk := ok, reason := if ok then "" else "value not preserved", cls := "",
                tag := if IntegerSpec.fits n (v : Int) then "fromu64/fits" else "fromu64/wraps" }
     | "toi64" =>
       let some a := parseHex as | throw "a"
       let m := Integer.toI64 w n (lim a)
       let ok := match implV with | some r => IntegerSpec.toI64Ok n a r | none => false
-      return { model := toHex m, specOk := ok, reason := if ok then "" else "value not preserved", cls := u64cls, tag := "toi64" }
+      return { model := toHex m, specOk := ok, reason := if ok then "" else "value not preserved", cls := "", tag := "toi64" }
     | "tou64" =>
       let some a := parseHex as | throw "a"
       let m := Integer.toU64 w n (lim a)
       let ok := match implV with | some r => IntegerSpec.toU64Ok n a r | none => false
-      return { model := toHex m, specOk := ok, reason := if ok then "" else "value not preserved", cls := u64cls,
+      return { model := toHex m, specOk := ok, reason := if ok then "" else "value not preserved", cls := "",
                tag := if IntegerSpec.val n a < 0 then "tou64/negative" else "tou64" }
     | _ =>
       let some a := parseHex as | throw "a"
